@@ -106,8 +106,24 @@ def cases_from_result(r, wf_by_file, inputs, main='workflow.yaml', sub_inputs=No
         cases.append({'wf': strip_wf(wf_by_file[f]), 'input': inleaves, 'noreturn': False, 'subs': stab,
                       'expectItems': (expect_items or {}) if ru['parent'] is None else {},
                       'declPar': declared_parallelism(wf_by_file[f]), 'pure': bool(pure) and ru['parent'] is None,
+                      'closure': declared_closure_timeouts(wf_by_file[f]),
                       'events': evn, '_run': ru['run'], '_returned': any(e['ev'] == 'Return' for e in evn), '_file': f})
     return cases
+
+
+def declared_closure_timeouts(wf):
+    """plugin step -> the time (ms) the workflow text gives its plugin to react to the cancel signal (documented default
+    5000); steps whose timeout is an expression are left out"""
+    out = {}
+    for sid, d in wf['steps'].items():
+        if d['kind'] != 'plugin':
+            continue
+        t = d['fields'].get('closure_wait_timeout')
+        if t is None:
+            out[sid] = 5000
+        elif t.get('t') == 'lit' and isinstance(t.get('value'), int) and not isinstance(t.get('value'), bool):
+            out[sid] = t['value']
+    return out
 
 
 def declared_parallelism(wf):
